@@ -330,7 +330,7 @@ template <class F, class Tree> void checkLookups(Tree& tree, long H, vh::Rng& r,
                 ++hits;
                 if (!found) { res.fail(tag + ":leaf-present-not-found", "index " + vh::str(q)); continue; }
                 auto& grp = found->first.get();
-                if (&grp != &pgs[it->second.first] || found->second != it->second.second || grp.getLeafSpacialIndex(found->second) != q) res.fail(tag + ":leaf-wrong-handle", "index " + vh::str(q));
+                if (static_cast<const void*>(&grp) != static_cast<const void*>(&pgs[it->second.first]) || found->second != it->second.second || grp.getLeafSpacialIndex(found->second) != q) res.fail(tag + ":leaf-wrong-handle", "index " + vh::str(q));
             }
         }
     }
